@@ -67,6 +67,7 @@
 //! }
 //! ```
 
+#![allow(unexpected_cfgs)] // `excsn_fibre_verif` gates the verification seam H5 below
 // Re-export relevant errors.
 pub use crate::error::{CloseError, RecvError, SendError, TryRecvError, TrySendError};
 
@@ -77,8 +78,13 @@ use self::core::{OneShotShared, STATE_SENT, STATE_TAKEN}; // Import shared state
 use std::fmt; // For Sender/Receiver Debug impls
 use std::future::Future;
 use std::pin::Pin;
+#[cfg(not(all(loom, excsn_fibre_verif)))]
 use std::sync::atomic::{AtomicBool, Ordering};
+#[cfg(not(all(loom, excsn_fibre_verif)))]
 use std::sync::Arc;
+// Verification seam H5 (see core.rs).
+#[cfg(all(loom, excsn_fibre_verif))]
+use crate::internal::sync::{Arc, AtomicBool, Ordering};
 use std::task::{Context, Poll};
 
 /// Creates a new oneshot channel, returning a `Sender` and `Receiver` pair.
